@@ -1599,7 +1599,7 @@ TECHNIQUE = ('Lean 4 proof (invariants over folds of declarations, induction ove
 # default its OWN declarer gave it (an override on one instance must not leak into the others)
 from harness import schemaleak as _sl          # noqa: E402
 from harness.mixins import add_family as _add_family   # noqa: E402
-_add_family(globals(), _sl, 'schemaleak', lambda case, impl: _sl.oracle(case, impl, who=('values',)), share=0.02)
+_add_family(globals(), _sl, 'schemaleak', lambda case, impl: _sl.oracle(case, impl, who=('views', 'values')), share=0.02)
 
 
 # competing initial values are merged in declaration order, whatever the hash seed (F44)
